@@ -2701,6 +2701,37 @@ func init() {
 							}
 						}
 					}
+					// the other way round: the *failing* run itself was made with -rapid.failfile naming a file that does not make
+					// this test fail (another test's, or none): the failure found by the random search is persisted all the same
+					if what == "" {
+						stale := filepath.Join(tmp, "c06-other-test.fail")
+						for _, ex := range []string{stale, filepath.Join(tmp, "c06-missing.fail")} {
+							dir6, _ := os.MkdirTemp(tmp, "c06f-")
+							fl6 := fl
+							fl6.Failfile = ex
+							var run6, run7 *tbRun
+							inDir(dir6, func() { run6 = runCheckTB(prog, fl6, name, logOutput) })
+							kind6, _, msg6 := verdictMsg(run6.verdict)
+							made := listFailFiles(dir6, name)
+							m.tag("failing-run-with-failfile-flag")
+							// (a property that fails whatever it draws fails on the other test's file, too: then the failure came from
+							// that file and nothing new is to be written)
+							fromFile := len(run6.in.invs) > 0 && run6.in.invs[0].isBuf && run6.in.invs[0].signalled
+							if fromFile {
+								os.RemoveAll(dir6)
+								continue
+							}
+							if kind6 == "failed" && len(made) != 1 {
+								what = fmt.Sprintf("a failure found while -rapid.failfile=%s (which does not fail this test) was given: %d fail files written", filepath.Base(ex), len(made))
+							} else if kind6 == "failed" {
+								inDir(dir6, func() { run7 = runCheckTB(prog, fl2, name, logOutput) })
+								if kind7, valid7, msg7 := verdictMsg(run7.verdict); kind7 != "failed" || valid7 != "0" || msg7 != msg6 {
+									what = fmt.Sprintf("a failure found while -rapid.failfile=%s was given is not replayed first by the next run: %s, first run %s", filepath.Base(ex), run7.verdict, run6.verdict)
+								}
+							}
+							os.RemoveAll(dir6)
+						}
+					}
 				}
 			}
 			m.tag("name-" + name[:min(len(name), 8)])
